@@ -62,6 +62,31 @@ pub fn pool() -> Vec<Game> {
             }
             Game { tags: vec![("Event".to_string(), "Grünfeld ♞ Arena".to_string()), ("Result".to_string(), "1/2-1/2".to_string()), ("Opening".to_string(), "Neo-Grünfeld Defense: Réti".to_string())], sans, result: "1/2-1/2", final_fen: p.to_fen() }
         }))
+        .chain(std::iter::once(()).map(|_| {
+            // tag values with the characters of the tag syntax itself inside them and at their ends:
+            // brackets, braces, a result token, a move number, blanks at both ends, an empty value
+            let mut p = Pos::startpos();
+            let mut sans = Vec::new();
+            for u in ["c2c4", "e7e5", "b1c3", "g8f6"] {
+                let m = p.find_legal_uci(u).unwrap();
+                sans.push(san(&p, &m));
+                p = p.make(&m);
+            }
+            Game {
+                tags: vec![
+                    ("Event".to_string(), "Hourly Blitz Arena [thematic]".to_string()),
+                    ("Result".to_string(), "0-1".to_string()),
+                    ("Site".to_string(), "[x]".to_string()),
+                    ("Round".to_string(), "]".to_string()),
+                    ("Annotator".to_string(), " {curly} 1-0 12. e4 ".to_string()),
+                    ("Opening".to_string(), "English Opening: King's English [A21".to_string()),
+                    ("Termination".to_string(), "".to_string()),
+                ],
+                sans,
+                result: "0-1",
+                final_fen: p.to_fen(),
+            }
+        }))
         .collect()
 }
 
@@ -374,7 +399,7 @@ fn check_doc(rep: &Reporter, pool: &[Game], d: &Doc, dev_bound: usize, max_chunk
 
 pub fn docs(tier: Tier) -> Vec<Doc> {
     let mut v = Vec::new();
-    let n = POOL.len() + 1;
+    let n = POOL.len() + 2;
     let endings: &[&'static str] = &["\n", "", "\n\n"];
     for comments in [false, true] {
         for &ending in endings {
